@@ -30,7 +30,8 @@ SPEC = {'id': 'C14',
          '999..250 000 bytes) x legacy bodies x Snowflake-NAT-Type values, AMP paths (valid, bad version, bad base64, '
          "empty), plain endpoints, raw net/http-level oddities, three scripted matched/timeout flows; the model's "
          'abstract core result comes from the real IPC methods on an in-process twin broker; non-trivial = every case; '
-         'distinct = distinct (class, case line)',
+         'distinct = distinct (class, case line)'
+         " The versioned equivalent of a legacy request is written by the harness's own encoder; legacy offers contain control / invalid / astral bytes; a herd of 192 polls idling into the timeout with 192 clients arriving within +-3 ms on a broker process of its own; the same boundary forced deterministically (lock held across the timer) behind the real HTTP handlers in-process.",
  'level_text': 'The handler shell around the IPC core is modelled as total decision functions; that every request gets '
                'a reply with one of the six status codes (never a dropped connection), that oversized bodies get 400, '
                "that a legacy request is answered with the image of its versioned equivalent's answer, and that the "
